@@ -63,6 +63,21 @@ def seven_digits(x, y):
     return int(round(x / 10 ** e)), int(round(y / 10 ** e)), e
 
 
+def dec4(x):
+    """a float as [mantissa, exponent] with a 4-digit mantissa (EFDecimal)"""
+    if x == 0:
+        return [0, 0]
+    e = int(math.floor(math.log10(abs(x)))) - 3
+    m = int(round(x / 10 ** e))
+    if abs(m) >= 10000:
+        m, e = int(round(m / 10)), e + 1
+    return [m, e]
+
+
+def rule_event(tid, seq, rule, got, **factors):
+    return {"tid": tid, "seq": seq, "ev": "Rule", "rule": rule, "got": dec4(got), "f": {k: dec4(v) for k, v in factors.items()}}
+
+
 def base(ns, q, unit):
     return float(q.value.to(ns.u(unit)).magnitude)
 
@@ -113,6 +128,8 @@ def video_events(ns, rng, tid0, tier):
             lhs, rhs, e = seven_digits(data, w * h * (bpp_milli / 1000) * fps * dur_s)
             events.append({"tid": tid, "seq": 2, "ev": "Approx", "rule": "video-data = pixels x bpp x fps x duration",
                            "lhs": lhs, "rhs": rhs, "exp": e})
+            events.append(rule_event(tid, 5, "video-cpu", base(ns, job.compute_needed, "cpu_core"), cost=cost, bitrate=bitrate))
+            events.append(rule_event(tid, 6, "video-data", data, pixels=w * h, bpp=bpp_milli / 1000, fps=fps, duration=dur_s))
             derived = {"dt": ns.SourceValue(job.data_transferred.value), "dur": ns.SourceValue(job.request_duration.value),
                        "cpu": ns.SourceValue(job.compute_needed.value), "ram": ns.SourceValue(job.ram_needed.value)}
             twin, _j, _s = build(plain_twin=True, overrides={"derived": derived})
@@ -269,6 +286,15 @@ def genai_events(ns, rng, tid0, tier):
         for rule, got, want in rules:
             lhs, rhs, e = seven_digits(got, want)
             events.append({"tid": tid, "seq": len(events), "ev": "Approx", "rule": rule, "lhs": lhs, "rhs": rhs, "exp": e})
+        f = dict(tokens=tokens, bits_per_token=bpt, alpha=alpha, beta=beta, active=active, total=total, factor=factor, bits=bits,
+                 ram_per_gpu=base(ns, gpu.ram_per_gpu, "bit/gpu"))
+        for rule, got in (("genai-token-weights", base(ns, job.output_token_weights, "bit")),
+                          ("genai-data-transferred", base(ns, job.data_transferred, "bit")),
+                          ("genai-data-stored", base(ns, job.data_stored, "bit")),
+                          ("genai-duration", base(ns, job.request_duration, "s")),
+                          ("genai-gpus", base(ns, job.compute_needed, "gpu")),
+                          ("genai-base-ram", base(ns, svc.base_ram_consumption, "bit"))):
+            events.append(rule_event(tid, 200 + len(events), rule, got, **f))
         job.output_token_count = sv(ns, tokens * 2, "dimensionless")
         fresh, *_ = build(tokens=tokens * 2)
         events.append({"tid": tid, "seq": 101, "ev": "Refresh", "builder": "GenAIJob", "input": "output_token_count",
